@@ -23,6 +23,9 @@ ProjMatches == /\ E.closed = (phase' # "open")
 \* a fatal alert from the peer is surfaced with the peer's description; returned bytes are the right ones
 Faithful == /\ (E.res \in {"RemoteAlertFatal", "RemoteAlertWarning"} => E.desc = E.wantdesc)
             /\ E.match
+            \* a handshake message written straight to the socket (not as part of a buffered flight) that fails: the
+            \* library looks for the peer's alert and raises it ("send failure during handshake looks for peer alert")
+            /\ (E.env = "fatalsend" /\ ~E.buffered => E.res = "RemoteAlertFatal")
 
 Step == /\ l <= Len(T) /\ E.ev = "CALL" /\ l' = l + 1 /\ UNCHANGED tid
         /\ CASE E.api = "handshake" -> Handshake(E.env, E.res)
